@@ -73,6 +73,55 @@ def structure_change_cases(ctx):
                 break
         return out
 
+    # a reset() that fails once (the nested pattern raises from its reset — e.g. an arpeggiator given too few notes) and is
+    # repaired: the failure must leave nothing behind, the next reset() rewinds everything again
+    class Flaky(iso.Pattern):
+        def __init__(self, values):
+            self.values, self.pos, self.armed = list(values), 0, False
+
+        def __next__(self):
+            self.pos += 1
+            return self.values[(self.pos - 1) % len(self.values)]
+
+        def reset(self):
+            if self.armed:
+                raise ValueError("reset failed")
+            super().reset()
+            self.pos = 0
+
+    for i in range(ctx.scale(120, 6000)):
+        vals = [r.randint(-9, 9) for _ in range(r.randint(2, 5))]
+        shape = r.choice(["direct", "add", "stutter", "seqitem", "deep"])
+        holder = r.choice(["ref", "ref", "plain", "ref-to-ref"])
+        fl = Flaky(vals)
+        inner = iso.PRef(fl) if holder == "ref" else (iso.PRef(iso.PRef(fl)) if holder == "ref-to-ref" else fl)
+        outer = wrap(shape, inner)
+        f2 = Flaky(vals)
+        fresh = wrap(shape, iso.PRef(f2) if holder == "ref" else (iso.PRef(iso.PRef(f2)) if holder == "ref-to-ref" else f2))
+        expected = pull(fresh, N)
+        k1, k2 = r.randint(1, 5), r.randint(0, 5)
+        pull(outer, k1)
+        fl.armed = True
+        raised = 0
+        for _ in range(r.randint(1, 2)):
+            try:
+                outer.reset()
+            except ValueError:
+                raised += 1
+        fl.armed = False
+        pull(outer, k2)
+        outer.reset()
+        got = pull(outer, N)
+        case = {"kind": "failed-reset", "shape": shape, "holder": holder, "values": vals, "k1": k1, "k2": k2, "failed_resets": raised}
+        ctx.case(("structure-change", repr(sorted(case.items()))), nontrivial=True, validated=False, sample=dict(case, after_reset=got))
+        ctx.count("structure-change:failed-reset", "structure-change-shape:" + shape)
+        if got != expected:
+            ctx.violation("C04:structure-change:failed-reset",
+                          "after a reset() that failed %d time(s) and was repaired (%s, %s) reset() gives %s; a newly constructed instance gives %s"
+                          % (raised, holder, shape, got, expected),
+                          {"suite": "c04-structure", "case": case, "after_reset": got, "fresh": expected,
+                           "first_failing_clause": "reset() rewinds every nested pattern"})
+
     for i in range(ctx.scale(400, 20000)):
         kind = r.choice(["ref", "ref", "dict", "gen"])
         shape = r.choice(["direct", "add", "stutter", "seqitem", "deep"])
